@@ -12,7 +12,10 @@ Classification table (the trusted part; validated at run time by read-only argum
            reshape / ravel / atleast_nd / asanyarray / ascontiguousarray, any call the table does not know (of all its arguments)
   fresh  : .copy(), arithmetic / comparison / boolean expressions, literals, comprehensions, indexing whose index is
            itself an indexing expression, a call or a list (fancy), np.* constructors and reductions (FRESH_NP),
-           methods in FRESH_METHODS, get_sensors() (returns the optimizer's own pivot array)
+           methods in FRESH_METHODS
+  result fields: a package method that returns one of its object's fields (get_sensors → pivots_) hands that array to its
+           callers; when some caller writes through such a result in place (SSPOR.fit shuffles the tail of the ranking) the
+           field counts as written wherever it is assigned, so it must never alias a protected root
   write  : x[...] = v, x[...] op= v, x op= v, mutating methods (MUTATORS), a call to a package function whose summary
            says it writes that parameter
 Protected roots of a function: its parameters (except self/cls and documented in/out parameters) and the fields in
@@ -30,7 +33,7 @@ VIEW_ATTRS = {"T", "real", "imag", "flat", "values", "mT"}
 VIEW_METHODS = {"conj", "conjugate", "transpose", "reshape", "ravel", "view", "squeeze", "swapaxes", "get", "items", "keys",
                 "to_numpy", "lower", "dropna"}
 FRESH_METHODS = {"copy", "astype", "tolist", "sum", "mean", "min", "max", "dot", "all", "any", "argmax", "argmin", "argsort",
-                 "predict", "transform", "fit_transform", "format", "isnull", "issubset", "get_sensors", "permutation",
+                 "predict", "transform", "fit_transform", "format", "isnull", "issubset", "permutation",
                  "std", "var", "prod", "cumsum", "round", "flatten", "nonzero", "count", "index", "join", "split", "strip",
                  "matrix_inverse", "get_params", "toarray", "todense"}
 VIEW_NP = {"asarray", "transpose", "squeeze", "reshape", "ravel", "atleast_1d", "atleast_2d", "atleast_3d", "asanyarray",
@@ -78,9 +81,10 @@ def collect(repo: Path):
 
 
 class Builder:
-    def __init__(self, fn: Fn, summaries):
+    def __init__(self, fn: Fn, summaries, ext_written=frozenset()):
         self.fn = fn
-        self.summaries = summaries        # simple name -> set of written params (names) , union over homonyms
+        self.summaries = summaries        # simple name -> [(params, written params, returned params, returned fields)]
+        self.ext_written = ext_written    # fields whose arrays are written in place by callers of the method returning them
         self.tmp = 0
         name = fn.node.name
         in_out = IN_OUT.get(name, set())
@@ -215,7 +219,9 @@ class Builder:
         if not entries:
             return None
         out = []
-        for (callee_params, written, returns) in entries:
+        for (callee_params, written, returns, ret_fields) in entries:
+            if ret_fields:
+                out.append(self.var("$ret:" + name))       # the callee object's own field(s), handed out by reference
             params = [p for p in callee_params if p not in ("self", "cls")]
             for i, a in enumerate(c.args):
                 if i < len(params) and params[i] in returns:
@@ -262,7 +268,7 @@ class Builder:
                     if b is not None:
                         self.fn.stmts.append(("write", b))
             for nm in names:
-                for (callee_params, written, _returns) in self.summaries.get(nm, []):
+                for (callee_params, written, _returns, _rf) in self.summaries.get(nm, []):
                     if not written:
                         continue
                     params = [p for p in callee_params if p not in ("self", "cls")]
@@ -362,6 +368,11 @@ class Builder:
     def build(self):
         for s in self.fn.node.body:
             self.stmt(s)
+        assigned = {st[1] for st in self.fn.stmts if st[0] == "assign"}
+        for f in sorted(self.ext_written):
+            v = self.fn.vars.get("self." + f)
+            if v is not None and v in assigned:
+                self.fn.stmts.append(("write", v))        # written later, through the reference a getter hands out
 
 
 def infer_roots(nvars, prot, stmts):
@@ -381,11 +392,13 @@ def infer_roots(nvars, prot, stmts):
 def analyse(repo: Path):
     fns = collect(repo)
     summaries = {}
-    for _ in range(6):         # summaries to a fixpoint (call depth in the package is small)
+    ext_written = frozenset()
+    for _ in range(8):         # summaries to a fixpoint (call depth in the package is small)
         new = {}
+        new_ext = set()
         for fn in fns:
             fn.vars, fn.stmts, fn.prot, fn.return_srcs = {}, [], [], []
-            b = Builder(fn, summaries)
+            b = Builder(fn, summaries, ext_written)
             b.build()
             roots = infer_roots(len(fn.vars), set(fn.prot), fn.stmts)
             inv = {v: k for k, v in fn.vars.items()}
@@ -410,10 +423,32 @@ def analyse(repo: Path):
                 for r in full[v]:
                     if inv[r] in fn.params:
                         returns.add(inv[r])
-            new.setdefault(fn.node.name, []).append((fn.params, frozenset(written), frozenset(returns)))
-        if new == summaries:
+            # fields of the object handed out by reference
+            fvars = {v for k, v in fn.vars.items() if k.startswith("self.")}
+            froots = infer_roots(len(fn.vars), fvars, fn.stmts)
+            ret_fields = set()
+            for v in fn.return_srcs:
+                for r in froots[v]:
+                    ret_fields.add(inv[r][5:])
+            new.setdefault(fn.node.name, []).append((fn.params, frozenset(written), frozenset(returns), frozenset(ret_fields)))
+            # results of getters written in place here
+            rvars = {v for k, v in fn.vars.items() if k.startswith("$ret:")}
+            if rvars:
+                rroots = infer_roots(len(fn.vars), rvars, fn.stmts)
+                for s in fn.stmts:
+                    if s[0] == "write":
+                        for r in rroots[s[1]]:
+                            new_ext.add(inv[r][5:])
+        # getter name -> fields
+        ext_fields = set()
+        for g in new_ext:
+            for (_p, _w, _r, rf) in new.get(g, []):
+                ext_fields |= set(rf)
+        if new == summaries and frozenset(ext_fields) == ext_written:
             break
         summaries = new
+        ext_written = frozenset(ext_fields)
+    analyse.ext_written = sorted(ext_written)
     return fns
 
 
